@@ -615,6 +615,88 @@ def r33_instantiate_generics(src, item, ed, opts):
     ed.count("R33")
 
 
+def _compose_shim(src, item, ed, sp, n, kind):
+    """surgical form of a shim: the sub-expressions the template mentions ({recv}, {arg0}, {left}, ...) stay
+    where they are in the text and only what lies between them is replaced, so that rewrites INSIDE them
+    still apply (nested shims).  Possible when every placeholder is a sub-range of the node, each used once,
+    in source order; returns False otherwise (the caller then replaces the whole node)."""
+    rng = {}
+    if kind == "methodcall":
+        rng["recv"] = tuple(n["receiver"])
+        for j, a in enumerate(n["args"]):
+            rng[f"arg{j}"] = tuple(a["range"])
+        for rn in nodes_of(item, "methodcall"):
+            if list(rn["range"]) == list(n["receiver"]):
+                rng["recv_recv"] = tuple(rn["receiver"])
+                for j, a in enumerate(rn["args"]):
+                    rng[f"recv_arg{j}"] = tuple(a["range"])
+                for rn2 in nodes_of(item, "methodcall"):
+                    if list(rn2["range"]) == list(rn["receiver"]):
+                        rng["recv_recv_recv"] = tuple(rn2["receiver"])
+                        for j, a in enumerate(rn2["args"]):
+                            rng[f"recv_recv_arg{j}"] = tuple(a["range"])
+    elif kind == "call":
+        for j, a in enumerate(n["args"]):
+            rng[f"arg{j}"] = tuple(a["range"])
+    elif kind == "binary":
+        rng["left"] = tuple(n["left"])
+        rng["right"] = tuple(n["right"])
+    elif kind == "unary":
+        rng["operand"] = tuple(n["operand"])
+    elif kind == "cast":
+        rng["expr"] = tuple(n["expr"])
+    elif kind == "ref_index":
+        rng["base"] = tuple(n["_idx"]["expr"])
+        rng["index"] = tuple(n["_idx"]["index"])
+    elif kind == "index":
+        rng["base"] = tuple(n["expr"])
+        rng["index"] = tuple(n["index"])
+    else:
+        return False
+    parts = re.split(r"(?<!\{)\{(\w+)\}(?!\})", sp["to"])
+    lits, phs = parts[0::2], parts[1::2]
+    if not phs or len(set(phs)) != len(phs) or any(p not in rng for p in phs):
+        return False
+    pos = n["range"][0]
+    for p in phs:
+        a, b = rng[p]
+        if a < pos or b > n["range"][1]:
+            return False
+        pos = b
+    rule = sp.get("rule", "R24")
+    # the gaps this shim would rewrite; if an earlier shim already rewrote part of one (e.g. the outer
+    # `.to_uppercase().collect()` of a char), the earlier one wins and this site is left alone
+    pos = n["range"][0]
+    gaps = []
+    for p in phs:
+        a, b = rng[p]
+        if a > pos:
+            gaps.append((pos, a))
+        pos = b
+    if n["range"][1] > pos:
+        gaps.append((pos, n["range"][1]))
+    for (ga, gb) in gaps:
+        for e in ed.list:
+            if e[1] > e[0] and e[0] < gb and ga < e[1]:
+                return True
+    pos = n["range"][0]
+    for lit, p in zip(lits, phs):
+        a, b = rng[p]
+        text = lit.replace("{{", "{").replace("}}", "}")
+        if a > pos:
+            ed.replace(pos, a, text, rule)
+        elif text:
+            # an outer node's prefix goes before an inner node's prefix at the same offset
+            ed.insert(pos, text, rule, prio=-(n["range"][1] - n["range"][0]))
+        pos = b
+    text = lits[-1].replace("{{", "{").replace("}}", "}")
+    if n["range"][1] > pos:
+        ed.replace(pos, n["range"][1], text, rule)
+    elif text:
+        ed.insert(pos, text, rule, prio=(n["range"][1] - n["range"][0]))
+    return True
+
+
 def r24_call_shim(src, item, ed, opts):
     """generic named-site shim (covers R5, R6, R8, R11, R17): a call / method call / macro named
     in the sidecar is replaced by a call to a prelude shim whose spec is the std contract.
@@ -634,6 +716,8 @@ def r24_call_shim(src, item, ed, opts):
             c = [n for n in nodes_of(item, "unary") if n["op"] == sp["op"]]
         elif kind == "binary":
             c = [n for n in nodes_of(item, "binary") if n["op"] == sp["op"] and (sp.get("right") is None or src.text(*n["right"]).replace(" ", "") == sp["right"].replace(" ", "")) and (sp.get("left") is None or src.text(*n["left"]).replace(" ", "") == sp["left"].replace(" ", ""))]
+            if sp.get("left_matches") is not None:
+                c = [n for n in c if re.fullmatch(sp["left_matches"], re.sub(r"\s+", "", src.text(*n["left"])), re.S)]
         elif kind == "unsafe":
             c = nodes_of(item, "unsafe")
         elif kind == "ref_index":
@@ -712,6 +796,9 @@ def r24_call_shim(src, item, ed, opts):
                 env["index"] = src.text(*n["index"])
             elif kind == "macro":
                 env["tokens"] = n["tokens"]
+            if opts.get("compose") and _compose_shim(src, item, ed, sp, n, kind):
+                ed.count(sp.get("rule", "R24"))
+                continue
             txt = sp["to"].format(**env)
             ed.replace(n["range"][0], n["range"][1], txt, sp.get("rule", "R24"), subsume=True)
             ed.count(sp.get("rule", "R24"))
